@@ -10,6 +10,7 @@ CONSTANTS
   MCExtra = {0, 1, 2}
   MCMulti = {FALSE, TRUE}
   MCHow = {}
+  MCEniGone = FALSE
   MCEnis = {1, 2}
   BadDesign = ""
   GenLen = 4
